@@ -265,7 +265,8 @@ pub fn eval_au<F: FnMut(&GraphColoredVertices, &str)>(
     old_set
 }
 
-/// Evaluate the EW operator using the AU computation.
+/// Evaluate the EW operator using the AU computation:
+/// `E[phi1 W phi2] == not A[not phi2 U (not phi1 & not phi2)]`.
 pub fn eval_ew<F: FnMut(&GraphColoredVertices, &str)>(
     graph: &SymbolicAsyncGraph,
     phi1: &GraphColoredVertices,
@@ -277,15 +278,16 @@ pub fn eval_ew<F: FnMut(&GraphColoredVertices, &str)>(
         graph,
         &eval_au(
             graph,
-            &eval_neg(graph, phi1),
             &eval_neg(graph, phi2),
+            &eval_neg(graph, &phi1.union(phi2)),
             self_loop_states,
             progress_callback,
         ),
     )
 }
 
-/// Evaluate the AW operator using the EU computation.
+/// Evaluate the AW operator using the EU computation:
+/// `A[phi1 W phi2] == not E[not phi2 U (not phi1 & not phi2)]`.
 pub fn eval_aw<F: FnMut(&GraphColoredVertices, &str)>(
     graph: &SymbolicAsyncGraph,
     phi1: &GraphColoredVertices,
@@ -296,8 +298,8 @@ pub fn eval_aw<F: FnMut(&GraphColoredVertices, &str)>(
         graph,
         &eval_eu_saturated(
             graph,
-            &eval_neg(graph, phi1),
             &eval_neg(graph, phi2),
+            &eval_neg(graph, &phi1.union(phi2)),
             progress_callback,
         ),
     )
